@@ -21,6 +21,7 @@ import (
 	"go/types"
 	"os"
 	"path/filepath"
+	"regexp"
 	"sort"
 	"strings"
 
@@ -620,4 +621,61 @@ func cmdBindings(args []string) int {
 	}
 	fmt.Printf("bindings: %d functions under contract recorded in %s\n", nf, eng.bindingsPath())
 	return 0
+}
+
+// ---- called(f): how many times a call `f(...)` (by callee text) was executed by this activation ----
+
+var reCalled = regexp.MustCompile(`called\(([^()]*(?:\([^()]*\))?[^()]*)\)`)
+
+func (u *Unit) initCounted() {
+	if u.counted != nil || u.ct == nil {
+		return
+	}
+	u.counted = map[string]int{}
+	var cls []Clause
+	cls = append(cls, u.ct.Requires...)
+	cls = append(cls, u.ct.Ensures...)
+	for _, lc := range u.ct.Loops {
+		cls = append(cls, lc.Invariants...)
+		cls = append(cls, lc.Steps...)
+		cls = append(cls, lc.Entry...)
+	}
+	for _, cl := range cls {
+		for _, m := range reCalled.FindAllStringSubmatch(cl.Text, -1) {
+			k := strings.Join(strings.Fields(m[1]), "")
+			if _, ok := u.counted[k]; !ok {
+				u.counted[k] = len(u.counted) + 1
+			}
+		}
+	}
+}
+
+// countCall bumps the counter of the call's callee text, if the contract names it.
+func (u *Unit) countCall(st *State, e *ast.CallExpr) {
+	if len(u.counted) == 0 || st == nil {
+		return
+	}
+	id, ok := u.counted[strings.Join(strings.Fields(u.exprText(e.Fun)), "")]
+	if !ok {
+		return
+	}
+	h := u.ghostHeap("called")
+	cur := u.heapRead(st, h)
+	u.heapWrite(st, h, fmt.Sprintf("(store %s %d (+ (select %s %d) 1))", cur, id, cur, id))
+}
+
+func (u *Unit) hasCountedCall(n ast.Node) bool {
+	if len(u.counted) == 0 {
+		return false
+	}
+	found := false
+	ast.Inspect(n, func(x ast.Node) bool {
+		if c, ok := x.(*ast.CallExpr); ok {
+			if _, ok := u.counted[strings.Join(strings.Fields(u.exprText(c.Fun)), "")]; ok {
+				found = true
+			}
+		}
+		return !found
+	})
+	return found
 }
